@@ -12,7 +12,7 @@ import random
 from . import common, coqterm, gen, execgen, c01
 from .c04 import fresh_schema_name
 
-C18_FILES = ["Properties/C18.v"]
+C18_FILES = ["Properties/C18.v", "Properties/C18Locations.v", "Proofs/ExecLocations.v"]
 
 
 def mutate(rng, text):
@@ -111,8 +111,8 @@ def envelope_problems(q, resp, raised, calls, coercer_log, custom_coercer):
         if custom_coercer:
             if len(coercer_log) != len(errs):
                 P.append("error coercer awaited %d times for %d reported errors" % (len(coercer_log), len(errs)))
-            elif [e.get("tag") for e in errs] != [c["tag"] for c in coercer_log]:
-                P.append("errors are not the error coercer's return values in order")
+            elif errs != [c["ret"] for c in coercer_log]:
+                P.append("errors %r are not the error coercer's return values in order %r" % (errs, [c["ret"] for c in coercer_log]))
             entries = [c["error"] for c in coercer_log]
         else:
             entries = errs
@@ -139,7 +139,8 @@ def envelope_problems(q, resp, raised, calls, coercer_log, custom_coercer):
             if set(e) - {"message", "path", "locations", "extensions"}:
                 P.append("unexpected error keys %s" % sorted(set(e) - {"message", "path", "locations", "extensions"}))
     elif coercer_log:
-        P.append("error coercer awaited although no error is reported")
+        P.append("error coercer awaited %d time(s) (returning %r) although the response has no `errors`" % (
+            len(coercer_log), [c["ret"] for c in coercer_log]))
     return P
 
 
@@ -155,8 +156,17 @@ async def run_all(s, schema_name, plain_cases, valid_cases):
     async def recording_coercer(exception, error):
         stamp[0] += 1                        # never reused: a stale entry from an earlier request is recognisable
         tag = "c%d" % stamp[0]
-        coercer_log.append({"tag": tag, "error": error, "exc": type(exception).__name__})
-        return {"tag": tag, "message": error.get("message")}
+        ret = {"tag": tag, "message": error.get("message")}
+        coercer_log.append({"tag": tag, "error": error, "exc": type(exception).__name__, "ret": ret})
+        return ret
+
+    async def blanking_coercer(exception, error):
+        # a coercer that masks some errors: whatever it returns -- None, {}, 0, "" included -- is what must appear
+        stamp[0] += 1
+        tag = "b%d" % stamp[0]
+        ret = [None, {}, {"tag": tag}, 0, "", {"tag": tag, "message": error.get("message")}][stamp[0] % 6]
+        coercer_log.append({"tag": tag, "error": error, "exc": type(exception).__name__, "ret": ret})
+        return ret
 
     engine = await execgen.build_engine(s, schema_name, oracle_ref, rec)
     # a second engine over the same schema with the recording coercer
@@ -171,10 +181,15 @@ async def run_all(s, schema_name, plain_cases, valid_cases):
         engine2 = await build_with_coercer(s, s2name, oracle_ref2, rec2, recording_coercer)
     except Exception as e:  # pylint: disable=broad-except
         raise
+    rec3 = execgen.Recorder()
+    oracle_ref3 = [None, ctx_obj]
+    engine3 = await build_with_coercer(s, schema_name + "_bc", oracle_ref3, rec3, blanking_coercer)
     out = []
     for c in plain_cases + valid_cases:
         use_rc = c.get("recording_coercer", False)
         eng, r_, oref = (engine2, rec2, oracle_ref2) if use_rc else (engine, rec, oracle_ref)
+        if use_rc == "blank":
+            eng, r_, oref = engine3, rec3, oracle_ref3
         r_.clear()
         coercer_log.clear()
         oref[0] = execgen.Oracle(s, c.get("oracle_seed", 1), 0.05, 0.1)
@@ -217,7 +232,7 @@ def main(tier_, replay=None):
     from .gqlshim import pyparser
     rep = common.Report("C18")
     seed = common.seed()
-    b = common.build(["Properties/C18.vo", "Model/RunExec.vo", "Model/StdScalars.vo"])
+    b = common.build(["Properties/C18.vo", "Properties/C18Locations.vo", "Model/RunExec.vo", "Model/StdScalars.vo"])
     gate = common.grep_gate()
     proofs_ok = b["ok"] and not gate
     engine_env.setup()
@@ -252,6 +267,11 @@ def main(tier_, replay=None):
         # the same request again, back to back, on the same engine (second time through the parse cache)
         plain = [x for c in plain for x in ([c, dict(c)] if c["recording_coercer"] else [c])]
         variants = [x for c in variants for x in ([c, dict(c)] if c.get("recording_coercer") and rng.random() < 0.5 else [c])]
+        # every third request that goes to a custom coercer goes to the BLANKING one (falsy return values)
+        for i, c in enumerate([c for c in plain + variants if c.get("recording_coercer")]):
+            if i % 3 == 2:
+                c["recording_coercer"] = "blank"
+                kinds["blanking_coercer"] = kinds.get("blanking_coercer", 0) + 1
         kinds["syntax_or_garbage"] += len(plain)
         kinds["valid"] += len(variants)
         runs = asyncio.run(run_all(s, fresh_schema_name("c18"), plain, variants))
@@ -327,6 +347,9 @@ def main(tier_, replay=None):
                            "variables": repr(c.get("variables")), "response": repr(r["response"])[:2000]}, no_input=True)
     nob, names = common.count_obligations(C18_FILES)
     assum = common.assumptions("Properties/C18.v") if b["ok"] else {"closed": 0, "axioms": ["build failed"]}
+    if b["ok"]:
+        a2 = common.assumptions("Properties/C18Locations.v")
+        assum = {"closed": assum["closed"] + a2["closed"], "axioms": assum["axioms"] + a2["axioms"]}
     common.write_evidence("C18", tier_, "proof", {
         "obligations": nob, "discharged": nob if proofs_ok else 0,
         "checker_cmd": "make Properties/C18.vo", "trusted_base": common.TRUSTED_BASE + [
